@@ -52,6 +52,7 @@ struct Names {
     samples: Vec<String>,
     contigs: Vec<Vec<String>>,
     groups: Vec<u32>,
+    raw_groups: Vec<u32>,
 }
 
 fn sample_arg(n: &Names, sel: u8) -> (String, Option<usize>) {
@@ -102,10 +103,12 @@ pub fn apply(d: &mut Decompressor, n: &Names, op: &Op) -> Res {
             }
             Op::GroupStats => stable_hash(&d.get_group_statistics().map_err(|_| ())?),
             Op::RefSegment(g) => {
-                let gid = match g % 3 {
+                let gid = match g % 4 {
                     0 => n.groups.first().copied().unwrap_or(16),
                     1 => n.groups.last().copied().unwrap_or(17),
-                    _ => 4_000_000,
+                    2 => 4_000_000,
+                    // a raw group (0-15) that holds segments, if any: it has no reference segment
+                    _ => n.raw_groups.first().copied().unwrap_or(0),
                 };
                 stable_hash(&d.get_reference_segment(gid).map_err(|_| ())?)
             }
@@ -155,7 +158,7 @@ fn is_failing_arg(op: &Op) -> bool {
     match op {
         Op::ListContigs(s) | Op::GetSample(s) => s % 3 == 2,
         Op::GetContig(s, c) | Op::Length(s, c) | Op::SegDesc(s, c) | Op::Range(s, c, _, _) => s % 3 == 2 || c % 3 == 2,
-        Op::RefSegment(g) => g % 3 == 2,
+        Op::RefSegment(g) => g % 4 >= 2,
         _ => false,
     }
 }
@@ -185,6 +188,7 @@ pub fn reduced_alphabet() -> Vec<Op> {
         Op::RefSegment(0),
         Op::RefSegment(1),
         Op::RefSegment(2),
+        Op::RefSegment(3),
         Op::PrefixGet(0),
     ]
 }
@@ -204,12 +208,15 @@ pub fn check_in(ctx: &Ctx, case: &HistCase, counters: &std::cell::Cell<(u64, u64
     let open = || Decompressor::open(&path, DecompressorConfig { verbosity: 0 });
     let names = {
         let mut groups: Vec<u32> = Vec::new();
+        let mut raw_groups: Vec<u32> = Vec::new();
         if let Ok(f) = &e.facts {
             for s in &f.contigs {
                 for (_, ds, _) in s {
                     for d in ds {
                         if d.group >= 16 {
                             groups.push(d.group);
+                        } else {
+                            raw_groups.push(d.group);
                         }
                     }
                 }
@@ -217,7 +224,9 @@ pub fn check_in(ctx: &Ctx, case: &HistCase, counters: &std::cell::Cell<(u64, u64
         }
         groups.sort_unstable();
         groups.dedup();
-        Names { samples: c.samples.iter().map(|s| s.name.clone()).collect(), contigs: c.samples.iter().map(|s| s.contigs.iter().map(|r| r.header.clone()).collect()).collect(), groups }
+        raw_groups.sort_unstable();
+        raw_groups.dedup();
+        Names { samples: c.samples.iter().map(|s| s.name.clone()).collect(), contigs: c.samples.iter().map(|s| s.contigs.iter().map(|r| r.header.clone()).collect()).collect(), groups, raw_groups }
     };
     // fresh-handle table, memoised per operation
     let mut fresh: BTreeMap<Op, Res> = BTreeMap::new();
@@ -412,7 +421,11 @@ fn targeted_sequences(f: &crate::agcref::ArchiveFacts) -> (Vec<Vec<Op>>, bool) {
             if a.s == b.s && a.c == b.c && a.start == b.start {
                 continue;
             }
-            let pr = if a.group == b.group && a.id == b.id {
+            // a raw-group pack and an LZ group whose ids coincide under (pack << 4 | raw group) style keys
+            let cross = |x: &Occ, y: &Occ| x.group < 16 && y.group >= 16 && y.group == 16 * (x.id / 50) + x.group;
+            let pr = if cross(a, b) || cross(b, a) {
+                0
+            } else if a.group == b.group && a.id == b.id {
                 if a.rc != b.rc {
                     0
                 } else {
@@ -474,7 +487,7 @@ fn op_strategy() -> impl Strategy<Value = Op> {
         1 => (0u8..3, 0u8..3).prop_map(|(s, c)| Op::SegDesc(s, c)),
         2 => Just(Op::AllSegments),
         1 => Just(Op::GroupStats),
-        2 => (0u8..3).prop_map(Op::RefSegment),
+        2 => (0u8..4).prop_map(Op::RefSegment),
         1 => (0u8..3).prop_map(Op::PrefixList),
         1 => (0u8..3).prop_map(Op::PrefixGet),
         2 => (any::<u16>(), any::<u16>()).prop_map(|(s, c)| Op::ContigAt(s, c)),
@@ -484,7 +497,7 @@ fn op_strategy() -> impl Strategy<Value = Op> {
 }
 
 fn strat(many_pct: u32) -> impl Strategy<Value = HistCase> {
-    let cfg = GenCfg { max_contig: 1500, max_samples: 4, many_samples_pct: many_pct, single_file: None, vary_presentation: false, swarm_pct: 0 };
+    let cfg = GenCfg { max_contig: 1500, max_samples: 4, many_samples_pct: many_pct, single_file: None, vary_presentation: false, swarm_pct: 6 };
     (gen::collection_strategy(cfg), prop::collection::vec(prop::collection::vec(op_strategy(), 4..13), 2..9), any::<bool>())
         .prop_map(|(collection, sequences, concurrent)| HistCase { collection, sequences, concurrent })
 }
@@ -513,7 +526,7 @@ pub fn replay(ctx: &Ctx, _stage: &str, case: &Value) -> Report {
 pub const INFO: PropInfo = PropInfo {
     id: "C08",
     level: "exploration",
-    rule: "cases = (archive from a small generated collection, a quarter of them with > 50 samples i.e. two metadata batches; 2..8 random operation sequences of length 4..12). On every archive ALL sequences of length 1 and 2 over a 20-operation alphabet {list_samples, list_contigs, get_sample, get_contig, get_contig_range, get_contig_length, get_contig_segments_desc, get_all_segments, get_group_statistics, get_reference_segment, get_samples_by_prefix} x {existing, other existing, unknown} arguments and all sequences of length 3 over 10 of them are run on a new handle each (1420 sequences); then structure-aware sequences built from the archive's own descriptor table (read by the independent decoder): up to 38 pairs of segment occurrences that share a stored entry (same group and in-group id, opposite orientations first), the same group with another id, or the same id in another group, whose ranges / whole contigs are queried back to back on one handle (5 sequences per pair); then the random ones (which also address any sample / contig by index); for half of the cases the random sequences also run concurrently on handles cloned with clone_for_thread. Oracle: every operation's outcome (value hash, or 'is an error') equals the outcome of the same operation on a fresh handle; a panic anywhere is a violation; a concurrently running clone must behave exactly as the same sequence run alone. Non-trivial = the case contains a miss after a hit, a success after a failed operation, or a whole-table query after a per-sample query; distinct = distinct case. Counts of sequences and operations are reported as operation_sequences / operations.",
+    rule: "cases = (archive from a small generated collection, a quarter of them with > 50 samples i.e. two metadata batches; 2..8 random operation sequences of length 4..12). On every archive ALL sequences of length 1 and 2 over a 21-operation alphabet {list_samples, list_contigs, get_sample, get_contig, get_contig_range, get_contig_length, get_contig_segments_desc, get_all_segments, get_group_statistics, get_reference_segment, get_samples_by_prefix} x {existing, other existing, unknown} arguments and all sequences of length 3 over 10 of them are run on a new handle each (1462 sequences); then structure-aware sequences built from the archive's own descriptor table (read by the independent decoder): up to 38 pairs of segment occurrences that share a stored entry (same group and in-group id, opposite orientations first), the same group with another id, or the same id in another group, whose ranges / whole contigs are queried back to back on one handle (5 sequences per pair); then the random ones (which also address any sample / contig by index); for half of the cases the random sequences also run concurrently on handles cloned with clone_for_thread. Oracle: every operation's outcome (value hash, or 'is an error') equals the outcome of the same operation on a fresh handle; a panic anywhere is a violation; a concurrently running clone must behave exactly as the same sequence run alone. Non-trivial = the case contains a miss after a hit, a success after a failed operation, or a whole-table query after a per-sample query; distinct = distinct case. Counts of sequences and operations are reported as operation_sequences / operations.",
     assumptions: &["error values are compared as 'is an error', not by message"],
     needs_cli: true,
     needs_checked: false,
